@@ -96,6 +96,7 @@ extern "C"
     void sbv_make_symbolic(void* p, size_t n, const char* name)
     {
         std::string nm = fresh_name(name);
+        if (n == 0) return;
         if (n <= 8)
         {
             uint64_t v = input(nm, 8 * (unsigned)n);
